@@ -25,12 +25,12 @@ CHECKS = {
             'interfaces; ciphertexts equal the reference value for the nonce found in the entropy log, decrypt through all '
             'three decryption interfaces, reference-made ciphertexts decrypt; negatives: every DER bit, off-curve / '
             'out-of-range / wrong-curve C1 (with consistent C3), truncation, extension, DER mutants, foreign keys, all-zero '
-            'KDF output; ECDH compared with d_A*d_B*G for boundary scalars.',
+            'KDF output; sm2_encrypt_pre_compute batches compared pair by pair with (draw, [draw]G) and used through sm2_do_encrypt_ex; ECDH compared with d_A*d_B*G for boundary scalars.',
             '4/C02', TRUSTED),
     'C03': ('exploration',
             'sanitized execution (ASan+UBSan) with reference-model oracle (hashlib / independent SM3) over seeded chunkings',
             'Every digest/HMAC/PBKDF2/HKDF/KDF interface is run on dense length ranges under one-shot, byte-wise, '
-            'random and block-edge partitions in the default, SMALL_FOOTPRINT (and SM3_SSE in thorough) builds and '
+            'random and block-edge partitions in the default, SMALL_FOOTPRINT and SM3_SSE builds and '
             'compared byte for byte with an independent implementation; thorough adds >2^32-bit messages.',
             '4/C03', TRUSTED),
     'C04': ('exploration',
@@ -53,7 +53,7 @@ CHECKS = {
             'finding).',
             '4/C05', TRUSTED),
     'C06': ('exploration',
-            'libFuzzer (clang ASan + UBSan subset) on ten decoder-family targets seeded with run-time generated valid '
+            'libFuzzer (clang ASan + UBSan subset) on eleven decoder-family targets (one of them protects its input itself, so that arbitrary inner plaintexts and paddings arrive under a valid tag / MAC) seeded with run-time generated valid '
             'objects; structured DER mutants (every field resized, lengths recomputed) executed under ASan/UBSan; '
             'MemorySanitizer replay of corpora and mutants (thorough: also valgrind memcheck); hostile TLS peer (structure-aware mutations of real '
             'flights through a man-in-the-middle and an interposed tls13_record_encrypt) under ASan with a TLS_CONNECT '
@@ -68,7 +68,7 @@ CHECKS = {
     'C07': ('exploration',
             'sanitized execution with an executable acceptance predicate transcribed from the property, evaluated on the '
             'attribute model the chains are built from (independent X.509/SM2 builder), interposed clock',
-            'Chains of 1..5 certificates with 0..3 seeded defects per chain over the per-certificate axes '
+            'Chains of 1..5 certificates with 0..3 seeded defects per chain, plus a sweep of every single defect at every position of every chain length and of every pair of defects on one certificate, over the per-certificate axes '
             '(basicConstraints, pathLen, keyUsage, EKU, validity edges at now-1/now/now+1, signature good/corrupt/foreign, '
             'issuer name, anchor present/absent/same-name-other-key, version, unknown critical extension) x role x depth, '
             'for x509_certs_verify and x509_certs_verify_tlcp: library-accepts => predicate holds; every toolkit-shaped '
@@ -77,7 +77,7 @@ CHECKS = {
     'C08': ('exploration',
             'two real endpoints in one sanitized process (ASan+UBSan) over a socketpair with shim-injected short '
             'reads/writes and yields; monitors: negotiated-state equality and byte-stream conservation of a counter pattern',
-            '3 protocols x {server-auth, mutual} x chain depth 1..3, several seeded I/O fragmentation schedules each; both '
+            '3 protocols x {server-auth, mutual, offered-not-requested} x chain depth 1..3 x trust stores of 1..4 roots, several seeded I/O fragmentation schedules each, and sessions against independent pure-Python peers; both '
             'handshakes must return 1 with identical secrets/keys/IVs/suite/version; write sizes 1..50000 and read buffers '
             '1..20000 in one-way and alternating plans; every byte must arrive once, in order, unmodified; nothing may '
             'surface after an orderly close.',
@@ -88,7 +88,7 @@ CHECKS = {
             'RFCs in pure Python (TLS 1.3 client and server, TLCP and TLS 1.2 client) that omit, reorder or forge their '
             'proof of possession while keeping their own transcript consistent; must-fail verdict on the verifier '
             'with a positive control per cell',
-            'For each protocol and verifier role: untrusted / same-name root, expired and not-yet-valid leaf or intermediate, '
+            'For each protocol and verifier role: untrusted / same-name root, expired and not-yet-valid (by an hour, by 2^31 and by 2^32 seconds) leaf or intermediate, '
             'issuer without basicConstraints / cA=FALSE / no keyCertSign (incl. above the first CA), end-entity as issuer, '
             'bad certificate signatures, leaf signed by another key, issuer-name mismatch, unknown critical extension, '
             'certificate/private-key mismatch (sign key, TLCP encryption key), untrusted TLCP encryption certificate, '
@@ -100,7 +100,7 @@ CHECKS = {
             'and the next tls_recv',
             'Per protocol and auth mode an honest baseline fixes the record list; single-bit flips of handshake payload '
             'bytes (stratified in quick, every byte in thorough), drop/duplicate/swap/truncate/inject at every record index '
-            'and plaintext flips inside encrypted TLS 1.3 flights are applied one per handshake; both sides must never '
+            'and plaintext flips inside encrypted TLS 1.3 flights are applied one per handshake, also with the transcript length steered to chosen residues modulo the hash block (0 included); both sides must never '
             'complete, and a side that completed must get no application data. Blocked endpoints are detected logically '
             '(all threads sleeping in recvfrom, nothing readable), not by wall-clock.',
             '4/C10', TRUSTED),
@@ -121,8 +121,8 @@ CHECKS = {
             'Raw coordinates, limbs, x-only, SEC1 octets (every prefix byte x lengths 1/2/32/33/34/64/65/66), BIT STRING and '
             'SubjectPublicKeyInfo DER/PEM, certificate SPKI, sm2_ecdh peers (incl. the infinity octet), TLS 1.2 '
             'Server/ClientKeyExchange, TLS 1.3 server/client key_share, ECPrivateKey / PKCS#8 with matching, foreign, '
-            'negated and invalid embedded public keys, scalars {0,1,n-3..n+1,2^256-1}, SM9 G1/G2 octets, signature S and '
-            'ciphertext C1: accept <=> coordinates < p, on curve, finite; private scalar accepted <=> 1 <= d <= n-2.',
+            'negated and invalid embedded public keys, scalars {0,1,n-3..n+1,2^256-1}, SM9 G1/G2 octets (incl. coordinate + p), signature S, '
+            'ciphertext C1 and the SM9 key containers: accept <=> coordinates < p, on curve, finite; private scalar accepted <=> 1 <= d <= n-2.',
             '4/C12', TRUSTED),
     'C13': ('exploration',
             'sanitized execution (ASan+UBSan) of every exported sm2_z256 function in the portable-C and ENABLE_SM2_AMD64 '
@@ -179,7 +179,7 @@ CHECKS = {
             'For 25 randomised primitives (SM2 keygen/sign x4/encrypt x4, PKCS#8 encryption, SM9 keygen/sign/encrypt/exchange, '
             'tls_cbc_encrypt, TLS randoms and pre-master secret, X.509 certificate and request signing, CMS sign / envelop / sign-and-envelop, SM9 key encryption) and for each handshake role of the three protocols: different '
             'streams give different ephemeral values, the same stream and clock give identical bytes, repeated operations '
-            'never repeat an ephemeral value, and for EVERY draw index of the clean run - and of runs whose first candidates '
+            'never repeat an ephemeral value (also on one signing / encryption context used for hundreds of messages, before and after a failed draw), and for EVERY draw index of the clean run - and of runs whose first candidates '
             'are forced out of range so that rejection sampling retries - a failure of that draw must make the '
             'operation / handshake report failure with nothing but alerts sent afterwards.',
             '4/C18', TRUSTED),
@@ -189,7 +189,7 @@ CHECKS = {
             'Handshakes of all three protocols (both auth modes, plus application data, plus tampered-flight failure paths), '
             'SM2 key generation/import/sign/decrypt/ECDH, PKCS#8 encrypt/open (right, wrong password, truncated), import of '
             'structurally valid but inconsistent key containers through all four paths, CMS sign/envelop/open and X.509 '
-            'signing with known signer, recipient and content keys (good, wrong key, bit flips), SM9 '
+            'signing with known signer, recipient and content keys (good, wrong key, bit flips, padding indicators 0..255 under the right key), SM4-CBC padding failures, SM9 '
             'keygen/extract/sign/encrypt/decrypt, record unprotection (good and bad records), live receive-failure paths after '
             'data was exchanged (truncated / announced-more-than-sent / flipped / replayed records ...); secrets searched: private '
             'scalars (both byte orders), nonces, master secret, key block and slices, TLS 1.3 traffic keys recovered by '
